@@ -195,7 +195,6 @@ RECURSIVE InsertR(_, _), SortR(_)
 InsertR(s, x) == IF s = << >> THEN <<x>> ELSE IF x[1] <= s[1][1] THEN <<x>> \o s ELSE <<s[1]>> \o InsertR(Tail(s), x)
 SortR(s) == IF s = << >> THEN << >> ELSE InsertR(SortR(Tail(s)), s[1])
 Ordered(keys, Rank(_)) == LET s == SortR([i \in 1..Len(keys) |-> <<Rank(keys[i]), keys[i]>>]) IN [i \in 1..Len(s) |-> s[i][2]]
-Shallow(a)  == Len(a.p)                       \* _apply_actions appends the keys of nested groups at the end (:1361-1363)
 Deep(a)     == 100 - Len(a.p)                 \* get_sorted_keys: deepest first (_namespace.py:262-273)
 Decl(a)     == a.d                            \* the order of parser._actions
 Deepdecl(a) == (100 - Len(a.p)) * 1000 + a.d  \* components.sort(key=-depth), stable over parser._actions (:1226)
@@ -241,7 +240,6 @@ ApplyActions(h, arg, keys, n) ==
   ELSE Walk(h, <<<<arg.v, << >>>>>>, keys, n)
 
 Out(h, ok, ret) == [h |-> h, ok |-> ok, ret |-> ret]
-TypedPaths(keys) == {keys[i].p : i \in 1..Len(keys)}
 
 AlgOp(op, h, arg, keys, n) ==
   CASE op = "parse_object" ->                                         \* _core.py:505 _apply_actions(cfg_obj): NO copy on entry
